@@ -324,3 +324,39 @@ package lalr
 //@   loop 3:
 //@     invariant 0 <= @i && @i <= len(r.RHS) && @i2 < len(c.grammar.Rules) && sameslice(r.RHS, c.grammar.Rules[@i2].RHS) && r.LHS == c.grammar.Rules[@i2].LHS && empty
 //@     invariant forall k in 0..@i :: r.RHS[k] < 0 || bit(c.empty, r.RHS[k])
+
+// ---- runtime lookahead planning (C08) ----
+
+// addRule: a new resolution rule numbered ruleBase + (number of rules so far). Its lookaheads are
+// those of the resolution rule it extends (which loses a reference) or the lookahead of the plain
+// rule prev, followed by the lookahead of rule; it is reported under rule.
+//@ func lookaheadPlanner.addRule
+//@   option slice-wf
+//@   requires 0 <= rule && rule < len(b.index) && 0 <= prev && (prev < b.ruleBase ==> prev < len(b.index)) && (prev >= b.ruleBase ==> prev - b.ruleBase < len(b.rules) && b.rules[prev - b.ruleBase] != nil)
+//@   modifies b.rules, b.rules[0:cap(b.rules)], fields(laRule, refCount)
+//@   ensures result == b.ruleBase + old(len(b.rules)) && len(b.rules) == old(len(b.rules)) + 1 && forall k in 0..old(len(b.rules)) :: b.rules[k] == old(b.rules[k])
+//@   ensures fresh(b.rules[len(b.rules)-1]) && b.rules[len(b.rules)-1].index == result && b.rules[len(b.rules)-1].refCount == 1 && b.rules[len(b.rules)-1].refRule == rule
+//@   ensures prev < b.ruleBase ==> len(b.rules[len(b.rules)-1].lookaheads) == 2 && b.rules[len(b.rules)-1].lookaheads[0] == b.index[prev] && b.rules[len(b.rules)-1].lookaheads[1] == b.index[rule]
+//@   ensures prev >= b.ruleBase ==> (let e = old(b.rules[prev - b.ruleBase]) in len(b.rules[len(b.rules)-1].lookaheads) == len(e.lookaheads) + 1 && b.rules[len(b.rules)-1].lookaheads[len(e.lookaheads)] == b.index[rule] && e.refCount == old(e.refCount) - 1 && forall k in 0..len(e.lookaheads) :: b.rules[len(b.rules)-1].lookaheads[k] == e.lookaheads[k])
+
+// init: index[r] is the lookahead whose nonterminal is the left-hand side of rule r, or -1. The two
+// log.Fatal calls are unreachable when lookahead nonterminals are pairwise distinct and have empty rules only.
+//@ pred laDistinct(g *Grammar) = forall p in 0..len(g.Lookaheads) :: forall q in p+1..len(g.Lookaheads) :: g.Lookaheads[p].Nonterminal != g.Lookaheads[q].Nonterminal
+//@ func lookaheadPlanner.init
+//@   option slice-wf
+//@   requires g != nil && 0 <= g.Terminals && g.Terminals <= len(g.Symbols) && laDistinct(g) && len(b.index) == 0
+//@   requires forall k in 0..len(g.Lookaheads) :: g.Terminals <= g.Lookaheads[k].Nonterminal && g.Lookaheads[k].Nonterminal < len(g.Symbols)
+//@   requires forall r in 0..len(g.Rules) :: g.Terminals <= g.Rules[r].LHS && g.Rules[r].LHS < len(g.Symbols)
+//@   requires forall r in 0..len(g.Rules) :: forall k in 0..len(g.Lookaheads) :: g.Lookaheads[k].Nonterminal == g.Rules[r].LHS ==> len(g.Rules[r].RHS) == 0
+//@   modifies b.g, b.ruleBase, b.lookaheads, b.index, b.index[0:cap(b.index)]
+//@   ensures b.g == g && b.ruleBase == len(g.Rules) && sameslice(b.lookaheads, g.Lookaheads) && len(b.index) == len(g.Rules)
+//@   ensures forall r in 0..len(g.Rules) :: (b.index[r] == -1 && forall k in 0..len(g.Lookaheads) :: g.Lookaheads[k].Nonterminal != g.Rules[r].LHS) || (0 <= b.index[r] && b.index[r] < len(g.Lookaheads) && g.Lookaheads[b.index[r]].Nonterminal == g.Rules[r].LHS)
+//@   loop 1:
+//@     invariant 0 <= @i && @i <= len(nonterms) && len(nonterms) == len(g.Symbols) - g.Terminals && fresh(nonterms) && forall k in 0..@i :: nonterms[k] == -1
+//@   loop 2:
+//@     invariant 0 <= @i && @i <= len(g.Lookaheads) && len(nonterms) == len(g.Symbols) - g.Terminals && fresh(nonterms)
+//@     invariant forall n in 0..len(nonterms) :: (nonterms[n] == -1 && forall k in 0..@i :: g.Lookaheads[k].Nonterminal != n + g.Terminals) || (0 <= nonterms[n] && nonterms[n] < @i && g.Lookaheads[nonterms[n]].Nonterminal == n + g.Terminals)
+//@   loop 3:
+//@     invariant 0 <= @i && @i <= len(g.Rules) && len(b.index) == @i && len(nonterms) == len(g.Symbols) - g.Terminals && fresh(nonterms) && (fresh(b.index) || (samearray(b.index, old(b.index)) && cap(b.index) == old(cap(b.index)))) && otherarray(b.index, nonterms)
+//@     invariant forall n in 0..len(nonterms) :: (nonterms[n] == -1 && forall k in 0..len(g.Lookaheads) :: g.Lookaheads[k].Nonterminal != n + g.Terminals) || (0 <= nonterms[n] && nonterms[n] < len(g.Lookaheads) && g.Lookaheads[nonterms[n]].Nonterminal == n + g.Terminals)
+//@     invariant forall r in 0..@i :: b.index[r] == nonterms[g.Rules[r].LHS - g.Terminals]
